@@ -326,6 +326,21 @@ var fragLib = []fragGen{
 			stages: stAny,
 		}
 	},
+	// 31: several scalar locals assigned in BOTH branches of an if and in switch
+	// cases, and two small struct locals (phi placement / scalar replacement
+	// passes walk sets of such variables)
+	func(c *compCtx, k int) fragInst {
+		return fragInst{
+			globals: fmt.Sprintf("struct PS%d { x: f32, y: f32, n: u32 }\n", k),
+			body: fmt.Sprintf("var pa%d: f32 = 1.0;\nvar pb%d: f32 = 2.0;\nvar pc%d: u32 = 7u;\nif (idx > 1u) { pa%d = 3.0; pb%d = acc; pc%d = pc%d + 1u; } else { pa%d = acc; pb%d = 6.0; pc%d = pc%d * 3u; }\n"+
+				"switch (idx %% 3u) {\n  case 0u: { pa%d = pa%d + 1.0; pb%d = pb%d * 2.0; }\n  case 1u: { pa%d = pa%d * 2.0; pc%d = pc%d + 2u; }\n  default: { pb%d = pb%d - 1.0; pc%d = pc%d + 5u; }\n}\n"+
+				"var ps%d: PS%d;\nvar pt%d: PS%d;\nps%d.x = pa%d; ps%d.y = pb%d; ps%d.n = pc%d;\npt%d.x = ps%d.y; pt%d.y = 4.0; pt%d.n = ps%d.n + 1u;\nacc += pa%d + pb%d + f32(pc%d) + ps%d.x + pt%d.x + f32(pt%d.n);\n",
+				k, k, k, k, k, k, k, k, k, k, k,
+				k, k, k, k, k, k, k, k, k, k, k, k,
+				k, k, k, k, k, k, k, k, k, k, k, k, k, k, k, k, k, k, k, k, k),
+			stages: stAny,
+		}
+	},
 }
 
 // vocab: identifiers used as overrides by some programs and as constants or
